@@ -110,7 +110,7 @@ def run_unit(unit, rlimit=30, canary=False, extra=(), keep=True):
                     for it in meta['items']]
     res['trusted'] = scan_trusted(text)
     res['canary_lines'] = meta.get('canary_lines', [])
-    ladder = [(rlimit, list(extra)), (rlimit * 4, list(extra)), (rlimit * 4, list(extra) + ['-V', 'spinoff-all'])]
+    ladder = [(rlimit, list(extra)), (rlimit * 3, list(extra) + ['-V', 'spinoff-all'])]
     final = None
     for step, (rl, ex) in enumerate(ladder):
         cmd = _verus_cmd(out, rl, ex)
